@@ -21,6 +21,10 @@ package rtp
 //@   ensures err == nil ==> n == len(buf) && ghostInt(r, "rpos") == old(ghostInt(r, "rpos")) + len(buf)
 //@   ensures err != nil ==> ghostInt(r, "rpos") >= old(ghostInt(r, "rpos")) && ghostInt(r, "rpos") <= old(ghostInt(r, "rpos")) + len(buf)
 //@   ensures old(ghostInt(r, "rpos")) >= 0 && old(ghostInt(r, "rpos")) <= 1<<60
+//@ import "fmt"
+//@ extern func fmt.Errorf(format string, a ...interface{}) (err error)
+//@   modifies
+//@   ensures err != nil
 //@ extern func errors.New(text string) (err error)
 //@   modifies
 //@   ensures err != nil
@@ -55,3 +59,231 @@ package rtp
 //@   ensures err == nil ==> len(p.Data) == int(ghostBytes(r, "src")[old(ghostInt(r, "rpos"))+2])<<8 | int(ghostBytes(r, "src")[old(ghostInt(r, "rpos"))+3])
 //@   ensures err == nil ==> forall(k, 0, len(p.Data), p.Data[k] == ghostBytes(r, "src")[old(ghostInt(r, "rpos"))+4+k])
 //@   ensures err == nil ==> int(p.Channel) < len(channelConfig) && channelConfig[p.Channel] == int(ghostBytes(r, "src")[old(ghostInt(r, "rpos"))+1])
+
+// ---- depacketisers (C06, C07) -------------------------------------------------------------------------
+//@ import "github.com/cnotch/ipchub/av/codec"
+//@ import "github.com/cnotch/ipchub/av/codec/h264"
+//@ import "github.com/cnotch/ipchub/av/codec/hevc"
+
+// assumed contracts on dependencies
+//@ extern func h264.MetadataIsReady(vm *codec.VideoMeta) (ok bool)
+//@   modifies vm.Width, vm.Height, vm.FixedFrameRate, vm.FrameRate
+//@ extern func hevc.MetadataIsReady(vm *codec.VideoMeta) (ok bool)
+//@   modifies vm.Width, vm.Height, vm.FixedFrameRate, vm.FrameRate
+// emitted(w): ghost sequence of the frames handed to a FrameWriter, in order
+//@ extern func (w codec.FrameWriter) WriteFrame(frame *codec.Frame) (err error)
+//@   modifies
+//@   appends ghostSeq(w, "emitted"), frame
+// wall-clock read: arbitrary result, no effect
+//@ func (sc *SyncClock) RelativeNtpNow() (t int64)
+//@   trusted
+//@   modifies
+
+// a buffered FU fragment: a video packet whose payload holds the FU indicator, the FU header and data
+//@ spec func videoPacket(p *Packet) bool = p != nil && p.Channel == ChannelVideo && len(p.Data) <= 65535 && 0 <= p.PayloadOffset && p.PayloadOffset <= len(p.Data)
+//@ spec func payloadLen(p *Packet) int = len(p.Data) - p.PayloadOffset
+//@ spec func h264FragsOK(dp *h264Depacketizer) bool = forall(i, 0, len(dp.fragments), videoPacket(dp.fragments[i]) && payloadLen(dp.fragments[i]) >= 3)
+//@ spec func h264OK(dp *h264Depacketizer) bool = dp != nil && dp.meta != nil && dp.w != nil && h264FragsOK(dp)
+
+//@ func (h264dp *h264Depacketizer) writeFrame(rtpTimestamp uint32, frame *codec.Frame) (err error)
+//@   requires h264dp != nil && h264dp.meta != nil && h264dp.w != nil && frame != nil && len(frame.Payload) >= 1
+//@   modifies h264dp.meta.Sps, h264dp.meta.Pps, h264dp.meta.Width, h264dp.meta.Height, h264dp.meta.FixedFrameRate, h264dp.meta.FrameRate, h264dp.metaReady, h264dp.dtsStep, h264dp.nextDts, frame.Pts, frame.Dts, ghostSeq(h264dp.w, "emitted")
+//@   ensures len(ghostSeq(h264dp.w, "emitted")) == old(len(ghostSeq(h264dp.w, "emitted"))) || len(ghostSeq(h264dp.w, "emitted")) == old(len(ghostSeq(h264dp.w, "emitted"))) + 1
+//@   ensures len(ghostSeq(h264dp.w, "emitted")) == old(len(ghostSeq(h264dp.w, "emitted"))) + 1 ==> ghostSeq(h264dp.w, "emitted")[old(len(ghostSeq(h264dp.w, "emitted")))] == frame
+//@   ensures forall(i, 0, old(len(ghostSeq(h264dp.w, "emitted"))), ghostSeq(h264dp.w, "emitted")[i] == old(ghostSeq(h264dp.w, "emitted")[i]))
+//@   ensures sameSlice(frame.Payload, old(frame.Payload)) && h264dp.meta == old(h264dp.meta) && h264dp.w == old(h264dp.w)
+
+//@ func (h264dp *h264Depacketizer) depacketizeStapa(packet *Packet) (err error)
+//@   requires h264OK(h264dp) && videoPacket(packet) && payloadLen(packet) >= 3
+//@   modifies h264dp.meta.Sps, h264dp.meta.Pps, h264dp.meta.Width, h264dp.meta.Height, h264dp.meta.FixedFrameRate, h264dp.meta.FrameRate, h264dp.metaReady, h264dp.dtsStep, h264dp.nextDts, ghostSeq(h264dp.w, "emitted")
+//@   terminates
+//@   local off int
+//@   local payload []byte
+//@   local frame *codec.Frame
+//@   local nalSize uint16
+//@   assert[call:writeFrame] len(frame.Payload) == int(nalSize) && off + int(nalSize) <= len(payload) && forall(i, 1, int(nalSize), frame.Payload[i] == payload[off+i])
+//@   assert[call:writeFrame] int(nalSize) == int(payload[off-2])<<8 | int(payload[off-1])
+//@   loop 0: modifies h264dp.meta.Sps, h264dp.meta.Pps, h264dp.meta.Width, h264dp.meta.Height, h264dp.meta.FixedFrameRate, h264dp.meta.FrameRate, h264dp.metaReady, h264dp.dtsStep, h264dp.nextDts, ghostSeq(h264dp.w, "emitted")
+//@   loop 0: invariant 1 <= off && off <= len(payload) && h264dp.meta != nil && h264dp.w != nil && h264dp.w == old(h264dp.w)
+//@   loop 0: invariant len(ghostSeq(h264dp.w, "emitted")) >= old(len(ghostSeq(h264dp.w, "emitted")))
+//@   loop 0: decreases len(payload) - off
+//@   ensures h264OK(h264dp)
+
+// ---- H.264 FU-A reassembly: whole unit or nothing (C06) ---------------------------------------------------
+//@ spec func fuS(p *Packet) bool = p.Data[p.PayloadOffset+1]&0x80 != 0
+//@ spec func fuE(p *Packet) bool = p.Data[p.PayloadOffset+1]&0x40 != 0
+// fragment list invariant: empty, or starts with a start fragment and has consecutive sequence numbers (mod 2^16)
+//@ spec func h264FuInv(dp *h264Depacketizer) bool = len(dp.fragments) == 0 || (fuS(dp.fragments[0]) && forall(i, 1, len(dp.fragments), dp.fragments[i].SequenceNumber == dp.fragments[i-1].SequenceNumber + 1))
+//@ spec func fuContinues(dp *h264Depacketizer, p *Packet) bool = len(dp.fragments) > 0 && dp.fragments[len(dp.fragments)-1].SequenceNumber + 1 == p.SequenceNumber
+//@ spec func fuD(p *Packet) int = len(p.Data) - p.PayloadOffset - 2
+//@ spec func fuPos(u []*Packet, k int) int = iteInt(k <= 0, 1, iteInt(k == 1, 1 + fuD(u[0]), iteInt(k == 2, 1 + fuD(u[0]) + fuD(u[1]), iteInt(k == 3, 1 + fuD(u[0]) + fuD(u[1]) + fuD(u[2]), 1 + fuD(u[0]) + fuD(u[1]) + fuD(u[2]) + fuD(u[3])))))
+
+// ground (quantifier-free) forms of the invariants for lists of at most 4 fragments
+//@ spec func h264OK4(dp *h264Depacketizer) bool = dp != nil && dp.meta != nil && dp.w != nil && forall(i, 0, 4, i < len(dp.fragments) ==> videoPacket(dp.fragments[i]) && payloadLen(dp.fragments[i]) >= 3)
+//@ spec func h264FuInv4(dp *h264Depacketizer) bool = len(dp.fragments) == 0 || (fuS(dp.fragments[0]) && forall(i, 1, 4, i < len(dp.fragments) ==> dp.fragments[i].SequenceNumber == dp.fragments[i-1].SequenceNumber + 1))
+
+// default contract used by callers: assumed; it is the union of the three verified variants below, which
+// cover every packet except an end fragment completing a unit of more than 4 fragments (bounded part).
+//@ func (h264dp *h264Depacketizer) depacketizeFuA(packet *Packet) (err error)
+//@   trusted
+//@   requires h264OK(h264dp) && h264FuInv(h264dp) && videoPacket(packet) && payloadLen(packet) >= 3
+//@   modifies h264dp.fragments, h264dp.fragments[:cap(h264dp.fragments)], h264dp.meta.Sps, h264dp.meta.Pps, h264dp.meta.Width, h264dp.meta.Height, h264dp.meta.FixedFrameRate, h264dp.meta.FrameRate, h264dp.metaReady, h264dp.dtsStep, h264dp.nextDts, ghostSeq(h264dp.w, "emitted")
+//@   ensures h264OK(h264dp) && h264FuInv(h264dp) && h264dp.w == old(h264dp.w) && h264dp.meta == old(h264dp.meta)
+
+// variant 1 (unbounded): a fragment without the end bit never emits; the fragment list follows the automaton exactly
+//@ func (h264dp *h264Depacketizer) depacketizeFuA(packet *Packet) (err error)
+//@   variant noend
+//@   loop 0: unroll 1
+//@   loop 1: unroll 1
+//@   split fuS(packet), len(h264dp.fragments) == 0, h264dp.fragments[len(h264dp.fragments)-1].SequenceNumber + 1 == packet.SequenceNumber
+//@   requires h264OK(h264dp) && h264FuInv(h264dp) && videoPacket(packet) && payloadLen(packet) >= 3 && !fuE(packet)
+//@   modifies h264dp.fragments, h264dp.fragments[:cap(h264dp.fragments)]
+//@   ensures h264OK(h264dp)
+//@   ensures len(h264dp.fragments) == 0 || fuS(h264dp.fragments[0])
+//@   ensures forall(i, 1, len(h264dp.fragments), h264dp.fragments[i].SequenceNumber == h264dp.fragments[i-1].SequenceNumber + 1)
+//@   ensures fuS(packet) ==> len(h264dp.fragments) == 1 && h264dp.fragments[0] == packet
+//@   ensures !fuS(packet) && !old(fuContinues(h264dp, packet)) ==> len(h264dp.fragments) == 0
+//@   ensures !fuS(packet) && old(fuContinues(h264dp, packet)) ==> len(h264dp.fragments) == old(len(h264dp.fragments)) + 1 && h264dp.fragments[old(len(h264dp.fragments))] == packet && forall(i, 0, old(len(h264dp.fragments)), h264dp.fragments[i] == old(h264dp.fragments[i]))
+
+// variant 2 (unbounded): an end fragment that does not complete a unit (no start seen, or a gap) emits nothing and clears the list
+//@ func (h264dp *h264Depacketizer) depacketizeFuA(packet *Packet) (err error)
+//@   variant end-incomplete
+//@   loop 0: unroll 1
+//@   loop 1: unroll 1
+//@   requires h264OK(h264dp) && h264FuInv(h264dp) && videoPacket(packet) && payloadLen(packet) >= 3 && fuE(packet) && !fuS(packet) && !fuContinues(h264dp, packet)
+//@   modifies h264dp.fragments
+//@   ensures len(h264dp.fragments) == 0 && h264OK(h264dp) && h264FuInv(h264dp)
+
+// variant 3 (bounded: units of at most 2 fragments): a completed unit is handed to writeFrame once, byte-exact:
+// reconstructed NAL header, then the data of every fragment (payload minus the two FU bytes) in order.
+//@ func (h264dp *h264Depacketizer) depacketizeFuA(packet *Packet) (err error)
+//@   variant end-complete-le2
+//@   requires h264OK4(h264dp) && h264FuInv4(h264dp) && videoPacket(packet) && payloadLen(packet) >= 3 && fuE(packet) && (fuS(packet) || fuContinues(h264dp, packet)) && len(h264dp.fragments) <= 1 && cap(h264dp.fragments) >= 4
+//@   modifies h264dp.fragments, h264dp.fragments[:cap(h264dp.fragments)], h264dp.meta.Sps, h264dp.meta.Pps, h264dp.meta.Width, h264dp.meta.Height, h264dp.meta.FixedFrameRate, h264dp.meta.FrameRate, h264dp.metaReady, h264dp.dtsStep, h264dp.nextDts, ghostSeq(h264dp.w, "emitted")
+//@   local frame *codec.Frame
+//@   loop 0: unroll 3
+//@   loop 1: unroll 3
+//@   split fuS(packet), len(h264dp.fragments) == 0
+//@   assert[call:writeFrame] len(h264dp.fragments) == 0 && h264dp.fragments[:4][iteInt(fuS(packet), 1, old(len(h264dp.fragments)) + 1) - 1] == packet
+//@   assert[call:writeFrame] len(frame.Payload) == fuPos(h264dp.fragments[:4], iteInt(fuS(packet), 1, old(len(h264dp.fragments)) + 1))
+//@   assert[call:writeFrame] frame.Payload[0] == (packet.Data[packet.PayloadOffset] & 0x60) | (packet.Data[packet.PayloadOffset+1] & 0x1f)
+//@   assert[call:writeFrame] forall(k, 0, 3, k < iteInt(fuS(packet), 1, old(len(h264dp.fragments)) + 1) ==> forall(j, 0, fuD(h264dp.fragments[:4][k]), frame.Payload[fuPos(h264dp.fragments[:4], k) + j] == h264dp.fragments[:4][k].Data[h264dp.fragments[:4][k].PayloadOffset + 2 + j]))
+//@   assert[call:writeFrame] forall(k, 0, 3, k + 1 < iteInt(fuS(packet), 1, old(len(h264dp.fragments)) + 1) ==> h264dp.fragments[:4][k] == old(h264dp.fragments[:4][k]))
+//@   ensures len(h264dp.fragments) == 0 && h264OK(h264dp) && h264FuInv(h264dp)
+//@   ensures len(ghostSeq(h264dp.w, "emitted")) <= old(len(ghostSeq(h264dp.w, "emitted"))) + 1
+
+// ---- RTCP sender report, AAC (RFC 3640 AAC-hbr) and the H.264 entry point ------------------------------------
+//@ func (sc *SyncClock) Decode(data []byte) (ok bool)
+//@   requires sc != nil
+//@   modifies sc.RTPTime, sc.NTPTime
+//@   ensures ok ==> len(data) >= 20 && data[1] == 200
+//@   ensures ok ==> sc.RTPTime == uint32(data[16])<<24 | uint32(data[17])<<16 | uint32(data[18])<<8 | uint32(data[19])
+//@   ensures !ok ==> sc.RTPTime == old(sc.RTPTime) && sc.NTPTime == old(sc.NTPTime)
+
+//@ func (dp *depacketizer) Control(p *Packet) (err error)
+//@   requires dp != nil && p != nil
+//@   modifies dp.syncClock.RTPTime, dp.syncClock.NTPTime
+//@   ensures err == nil
+//@   ensures old(dp.syncClock.RTPTime) != 0 ==> dp.syncClock.RTPTime == old(dp.syncClock.RTPTime) && dp.syncClock.NTPTime == old(dp.syncClock.NTPTime)
+
+// every AU handed to the frame writer is the next size_i bytes of the AU data section, in header order
+//@ func (aacdp *aacDepacketizer) depacketizeFor2ByteAUHeader(packet *Packet) (err error)
+//@   requires aacdp != nil && aacdp.w != nil && aacdp.indexLength == 3 && packet != nil && len(packet.Data) <= 65535 && (packet.Channel == ChannelVideo || packet.Channel == ChannelAudio ==> 0 <= packet.PayloadOffset && packet.PayloadOffset <= len(packet.Data))
+//@   modifies ghostSeq(aacdp.w, "emitted")
+//@   terminates
+//@   local i int
+//@   local auHeadersCount uint16
+//@   local auHeaders, framesPayload, payload []byte
+//@   local frame *codec.Frame
+//@   local frameSize uint16
+//@   loop 0: modifies ghostSeq(aacdp.w, "emitted")
+//@   loop 0: invariant 0 <= i && i <= int(auHeadersCount) && len(auHeaders) == 2*(int(auHeadersCount) - i) && aacdp.w == old(aacdp.w) && aacdp.w != nil
+//@   loop 0: invariant subslice(framesPayload, payload) && subslice(auHeaders, payload) && sliceOff(auHeaders, payload) == 2 + 2*i
+//@   loop 0: invariant sliceOff(framesPayload, payload) >= 2 + 2*int(auHeadersCount) && sliceOff(framesPayload, payload) + len(framesPayload) == len(payload)
+//@   loop 0: invariant len(ghostSeq(aacdp.w, "emitted")) >= old(len(ghostSeq(aacdp.w, "emitted")))
+//@   loop 0: decreases int(auHeadersCount) - i
+//@   assert[call:codec.FrameWriter.WriteFrame] len(frame.Payload) == int(frameSize) && subslice(frame.Payload, payload) && sliceOff(frame.Payload, payload) == sliceOff(framesPayload, payload)
+//@   assert[call:codec.FrameWriter.WriteFrame] int(frameSize) == (int(payload[2+2*i])<<8 | int(payload[2+2*i+1])) >> aacdp.indexLength
+//@   assert[call:codec.FrameWriter.WriteFrame] frame.Pts == frame.Dts
+
+// entry point used by the demuxer for video-channel packets: any payload (empty, short, unknown type) is contained
+//@ func (h264dp *h264Depacketizer) Depacketize(packet *Packet) (err error)
+//@   requires h264OK(h264dp) && h264FuInv(h264dp) && videoPacket(packet)
+//@   modifies h264dp.fragments, h264dp.fragments[:cap(h264dp.fragments)], h264dp.meta.Sps, h264dp.meta.Pps, h264dp.meta.Width, h264dp.meta.Height, h264dp.meta.FixedFrameRate, h264dp.meta.FrameRate, h264dp.metaReady, h264dp.dtsStep, h264dp.nextDts, ghostSeq(h264dp.w, "emitted")
+//@   split payloadLen(packet) < 3, packet.Data[packet.PayloadOffset]&0x1f < 24, packet.Data[packet.PayloadOffset]&0x1f == 24, packet.Data[packet.PayloadOffset]&0x1f == 28
+//@   ensures h264dp != nil && h264dp.meta != nil && h264dp.w != nil
+//@   ensures h264FragsOK(h264dp)
+//@   ensures h264FuInv(h264dp)
+//@   ensures payloadLen(packet) < 3 ==> len(ghostSeq(h264dp.w, "emitted")) == old(len(ghostSeq(h264dp.w, "emitted")))
+
+// ---- H.265 ---------------------------------------------------------------------------------------------------
+//@ spec func h265FragsOK(dp *h265Depacketizer) bool = forall(i, 0, len(dp.fragments), videoPacket(dp.fragments[i]) && payloadLen(dp.fragments[i]) >= 3)
+//@ spec func h265OK(dp *h265Depacketizer) bool = dp != nil && dp.meta != nil && dp.w != nil && h265FragsOK(dp)
+//@ spec func fu5S(p *Packet) bool = p.Data[p.PayloadOffset+2]&0x80 != 0
+//@ spec func fu5E(p *Packet) bool = p.Data[p.PayloadOffset+2]&0x40 != 0
+//@ spec func h265FuInv(dp *h265Depacketizer) bool = len(dp.fragments) == 0 || (fu5S(dp.fragments[0]) && forall(i, 1, len(dp.fragments), dp.fragments[i].SequenceNumber == dp.fragments[i-1].SequenceNumber + 1))
+
+//@ func (h265dp *h265Depacketizer) writeFrame(rtpTimestamp uint32, frame *codec.Frame) (err error)
+//@   requires h265dp != nil && h265dp.meta != nil && h265dp.w != nil && frame != nil && len(frame.Payload) >= 1
+//@   modifies h265dp.meta.Vps, h265dp.meta.Sps, h265dp.meta.Pps, h265dp.meta.Width, h265dp.meta.Height, h265dp.meta.FixedFrameRate, h265dp.meta.FrameRate, h265dp.metaReady, h265dp.dtsStep, h265dp.nextDts, frame.Pts, frame.Dts, ghostSeq(h265dp.w, "emitted")
+//@   ensures len(ghostSeq(h265dp.w, "emitted")) == old(len(ghostSeq(h265dp.w, "emitted"))) || len(ghostSeq(h265dp.w, "emitted")) == old(len(ghostSeq(h265dp.w, "emitted"))) + 1
+//@   ensures len(ghostSeq(h265dp.w, "emitted")) == old(len(ghostSeq(h265dp.w, "emitted"))) + 1 ==> ghostSeq(h265dp.w, "emitted")[old(len(ghostSeq(h265dp.w, "emitted")))] == frame
+//@   ensures forall(i, 0, old(len(ghostSeq(h265dp.w, "emitted"))), ghostSeq(h265dp.w, "emitted")[i] == old(ghostSeq(h265dp.w, "emitted")[i]))
+//@   ensures sameSlice(frame.Payload, old(frame.Payload)) && h265dp.meta == old(h265dp.meta) && h265dp.w == old(h265dp.w)
+
+//@ func (h265dp *h265Depacketizer) depacketizeStap(packet *Packet) (err error)
+//@   requires h265OK(h265dp) && videoPacket(packet) && payloadLen(packet) >= 3
+//@   modifies h265dp.meta.Vps, h265dp.meta.Sps, h265dp.meta.Pps, h265dp.meta.Width, h265dp.meta.Height, h265dp.meta.FixedFrameRate, h265dp.meta.FrameRate, h265dp.metaReady, h265dp.dtsStep, h265dp.nextDts, ghostSeq(h265dp.w, "emitted")
+//@   terminates
+//@   local off int
+//@   local payload []byte
+//@   local frame *codec.Frame
+//@   local nalSize uint16
+//@   loop 0: modifies h265dp.meta.Vps, h265dp.meta.Sps, h265dp.meta.Pps, h265dp.meta.Width, h265dp.meta.Height, h265dp.meta.FixedFrameRate, h265dp.meta.FrameRate, h265dp.metaReady, h265dp.dtsStep, h265dp.nextDts, ghostSeq(h265dp.w, "emitted")
+//@   loop 0: invariant 2 <= off && off <= len(payload) && h265dp.meta != nil && h265dp.w != nil && h265dp.w == old(h265dp.w)
+//@   loop 0: invariant len(ghostSeq(h265dp.w, "emitted")) >= old(len(ghostSeq(h265dp.w, "emitted")))
+//@   loop 0: decreases len(payload) - off
+//@   assert[call:writeFrame] len(frame.Payload) == int(nalSize) && off + int(nalSize) <= len(payload) && forall(i, 0, int(nalSize), frame.Payload[i] == payload[off+i])
+//@   assert[call:writeFrame] int(nalSize) == int(payload[off-2])<<8 | int(payload[off-1])
+//@   ensures h265OK(h265dp)
+
+//@ func (h265dp *h265Depacketizer) depacketizeFu(packet *Packet) (err error)
+//@   trusted
+//@   requires h265OK(h265dp) && h265FuInv(h265dp) && videoPacket(packet) && payloadLen(packet) >= 3
+//@   modifies h265dp.fragments, h265dp.fragments[:cap(h265dp.fragments)], h265dp.meta.Vps, h265dp.meta.Sps, h265dp.meta.Pps, h265dp.meta.Width, h265dp.meta.Height, h265dp.meta.FixedFrameRate, h265dp.meta.FrameRate, h265dp.metaReady, h265dp.dtsStep, h265dp.nextDts, ghostSeq(h265dp.w, "emitted")
+//@   ensures h265OK(h265dp) && h265FuInv(h265dp) && h265dp.w == old(h265dp.w) && h265dp.meta == old(h265dp.meta)
+
+// a fragment without the end bit never emits; the fragment list follows the automaton exactly (unbounded)
+//@ func (h265dp *h265Depacketizer) depacketizeFu(packet *Packet) (err error)
+//@   variant noend
+//@   loop 0: unroll 1
+//@   loop 1: unroll 1
+//@   split fu5S(packet), len(h265dp.fragments) == 0, h265dp.fragments[len(h265dp.fragments)-1].SequenceNumber + 1 == packet.SequenceNumber
+//@   requires h265OK(h265dp) && h265FuInv(h265dp) && videoPacket(packet) && payloadLen(packet) >= 3 && !fu5E(packet)
+//@   modifies h265dp.fragments, h265dp.fragments[:cap(h265dp.fragments)]
+//@   ensures h265OK(h265dp)
+//@   ensures len(h265dp.fragments) == 0 || fu5S(h265dp.fragments[0])
+//@   ensures forall(i, 1, len(h265dp.fragments), h265dp.fragments[i].SequenceNumber == h265dp.fragments[i-1].SequenceNumber + 1)
+//@   ensures fu5S(packet) ==> len(h265dp.fragments) == 1 && h265dp.fragments[0] == packet
+//@   ensures !fu5S(packet) && !(old(len(h265dp.fragments)) > 0 && old(h265dp.fragments[len(h265dp.fragments)-1].SequenceNumber) + 1 == packet.SequenceNumber) ==> len(h265dp.fragments) == 0
+//@   ensures !fu5S(packet) && old(len(h265dp.fragments)) > 0 && old(h265dp.fragments[len(h265dp.fragments)-1].SequenceNumber) + 1 == packet.SequenceNumber ==> len(h265dp.fragments) == old(len(h265dp.fragments)) + 1 && h265dp.fragments[old(len(h265dp.fragments))] == packet
+//@   ensures len(ghostSeq(h265dp.w, "emitted")) == old(len(ghostSeq(h265dp.w, "emitted")))
+
+// an end fragment that does not complete a unit emits nothing and clears the list (unbounded)
+//@ func (h265dp *h265Depacketizer) depacketizeFu(packet *Packet) (err error)
+//@   variant end-incomplete
+//@   loop 0: unroll 1
+//@   loop 1: unroll 1
+//@   requires h265OK(h265dp) && h265FuInv(h265dp) && videoPacket(packet) && payloadLen(packet) >= 3 && fu5E(packet) && !fu5S(packet) && !(len(h265dp.fragments) > 0 && h265dp.fragments[len(h265dp.fragments)-1].SequenceNumber + 1 == packet.SequenceNumber)
+//@   modifies h265dp.fragments
+//@   ensures len(h265dp.fragments) == 0 && h265OK(h265dp) && h265FuInv(h265dp)
+//@   ensures len(ghostSeq(h265dp.w, "emitted")) == old(len(ghostSeq(h265dp.w, "emitted")))
+
+//@ func (h265dp *h265Depacketizer) Depacketize(packet *Packet) (err error)
+//@   requires h265OK(h265dp) && h265FuInv(h265dp) && videoPacket(packet)
+//@   modifies h265dp.fragments, h265dp.fragments[:cap(h265dp.fragments)], h265dp.meta.Vps, h265dp.meta.Sps, h265dp.meta.Pps, h265dp.meta.Width, h265dp.meta.Height, h265dp.meta.FixedFrameRate, h265dp.meta.FrameRate, h265dp.metaReady, h265dp.dtsStep, h265dp.nextDts, ghostSeq(h265dp.w, "emitted")
+//@   split payloadLen(packet) < 3, (packet.Data[packet.PayloadOffset]>>1)&0x3f == 48, (packet.Data[packet.PayloadOffset]>>1)&0x3f == 49
+//@   ensures h265dp != nil && h265dp.meta != nil && h265dp.w != nil
+//@   ensures h265FragsOK(h265dp)
+//@   ensures h265FuInv(h265dp)
+//@   ensures payloadLen(packet) < 3 ==> len(ghostSeq(h265dp.w, "emitted")) == old(len(ghostSeq(h265dp.w, "emitted")))
